@@ -52,7 +52,72 @@ func hasUF(t *Term, seen map[int]bool) bool {
 }
 
 // runQuery decides assume ∧ goal; returns verdict, model, stats.
+// Case splitting (-split): the vNondetRange choices of the harness, in program order. A query whose DAG is large is
+// decided per value of the next choice: the assignment is substituted and the formula rebuilt through the
+// simplifying constructors (most of it folds away), recursively; the solver decides the leaves. sat if one case is
+// sat, unsat if all are unsat, unknown otherwise.
+type splitChoice struct{ opts []map[string]*Term }
+
+var (
+	splitMode    bool
+	splitChoices []splitChoice
+	splitMinSize = 20000
+)
+
 func runQuery(q query, solver string, timeout int, dir string, idx int) (string, map[string]uint64, map[int]uint64, int, int, string) {
+	if !splitMode || len(splitChoices) == 0 {
+		return runQuery1(q, solver, timeout, dir, idx)
+	}
+	cases, nodes, vars := 0, 0, 0
+	var rec func(assume, goal *Term, depth int, asg map[string]uint64) (string, map[string]uint64, map[int]uint64, string)
+	rec = func(assume, goal *Term, depth int, asg map[string]uint64) (string, map[string]uint64, map[int]uint64, string) {
+		if goal.IsFalse() || assume.IsFalse() {
+			return "unsat", nil, nil, "trivial"
+		}
+		if depth >= len(splitChoices) || dagSize(assume, goal) < splitMinSize {
+			cases++
+			q2 := q
+			q2.assume, q2.goal = assume, goal
+			v, m, nv, n, nvars, d := runQuery1(q2, solver, timeout, dir, idx*1000+cases)
+			nodes += n
+			vars += nvars
+			if v == "sat" {
+				if m == nil {
+					m = map[string]uint64{}
+				}
+				for k, x := range asg {
+					m[k] = x
+				}
+			}
+			return v, m, nv, d
+		}
+		worst, wd := "unsat", ""
+		for _, o := range splitChoices[depth].opts {
+			memo := map[int]*Term{}
+			a2 := subst(assume, o, memo)
+			g2 := subst(goal, o, memo)
+			asg2 := map[string]uint64{}
+			for k, x := range asg {
+				asg2[k] = x
+			}
+			for k, x := range o {
+				asg2[k] = x.val
+			}
+			v, m, nv, d := rec(a2, g2, depth+1, asg2)
+			if v == "sat" {
+				return v, m, nv, d
+			}
+			if v != "unsat" {
+				worst, wd = v, d
+			}
+		}
+		return worst, nil, nil, wd
+	}
+	v, m, nv, d := rec(q.assume, q.goal, 0, map[string]uint64{})
+	return v, m, nv, nodes, vars, fmt.Sprintf("%s; case split: %d solver calls", d, cases)
+}
+
+func runQuery1(q query, solver string, timeout int, dir string, idx int) (string, map[string]uint64, map[int]uint64, int, int, string) {
 	if q.goal.IsFalse() {
 		return "unsat", nil, nil, 0, 0, "trivial"
 	}
